@@ -285,16 +285,23 @@ EXC_CLASSES = [OSError, ValueError, KeyError, TimeoutError, UnicodeDecodeError, 
 
 
 class RecFile(io.BytesIO):
-    """a file_obj that records close() and every read"""
+    """a file_obj that records an explicit close() (not the one the garbage collector performs)"""
     def __init__(self, data, rec, url):
         super().__init__(data)
-        self._rec, self._url = rec, url
+        self._rec, self._url, self._in_del = rec, url, False
         rec['opened'].append(url)
 
     def close(self):
-        if not self.closed:
+        if not self.closed and not self._in_del:
             self._rec['closed'].append(self._url)
         super().close()
+
+    def __del__(self):
+        self._in_del = True
+        try:
+            super().__del__()
+        except AttributeError:
+            pass
 
 
 WRONG_FOR = {'image': ('css', b'/* not an image */\n#zz{color:red}\n'),
